@@ -226,7 +226,7 @@ func streamC07(env *runEnv) {
 			go func(i int, t *c07tunnel) {
 				defer wg.Done()
 				time.Sleep(time.Duration(r.Intn(5)) * time.Millisecond)
-				results[i] = runTunnel(srv.inst, tunnelScript{transport: t.transport, id: ids[i], packets: t.packets, end: "close"})
+				results[i] = runTunnel(srv.inst, tunnelScript{transport: t.transport, id: ids[i], packets: t.packets, end: "close", returnCookie: i%3 == 1})
 			}(i, t)
 		}
 		wg.Wait()
@@ -243,6 +243,57 @@ func streamC07(env *runEnv) {
 			b.close()
 		}
 		caseN++
+	}
+	// a client that returns a session cookie sets up its tunnel in the middle of another client's set-up:
+	// each tunnel keeps its own identity (user as its own cookie check set it)
+	{
+		ba, bb := newTagBackend(nil), newTagBackend(nil)
+		idA := fmt.Sprintf("{c07-ident-a-%d}", env.seed)
+		idB := fmt.Sprintf("{c07-ident-b-%d}", env.seed)
+		hostA, portA := splitHostPort(ba.addr)
+		pkA := [][]byte{
+			packet(ptHandshake, handshakeBody(1, 0, 0, 2)),
+			packet(ptTunnelCreate, tunnelCreateBody(0, "ok|identA|"+ba.addr, true)),
+			packet(ptTunnelAuth, tunnelAuthBody("pc")),
+			packet(ptChannelCreate, channelCreateBody(hostA, portA)),
+			packet(ptData, dataBody([]byte("<a>"))),
+		}
+		var resA tunnelResult
+		a, errA := openTunnel(srv.inst, tunnelScript{transport: "ws", id: idA})
+		if errA != nil {
+			resA.err = errA.Error()
+		} else {
+			step := func(c tclient, p []byte) {
+				c.send(p)
+				if m, e := c.recv(3 * time.Second); e == nil && !(len(m) >= 2 && int(m[0])|int(m[1])<<8 == ptData) {
+					resA.responses = append(resA.responses, m)
+				}
+			}
+			for _, p := range pkA[:3] {
+				step(a, p)
+			}
+			if b, errB := openTunnel(srv.inst, tunnelScript{transport: "ws", id: idB, returnCookie: true}); errB == nil {
+				b.send(packet(ptHandshake, handshakeBody(1, 0, 0, 2)))
+				b.recv(3 * time.Second)
+				b.send(packet(ptTunnelCreate, tunnelCreateBody(0, "ok|identB|"+bb.addr, true)))
+				b.recv(3 * time.Second)
+				defer b.close()
+			}
+			step(a, pkA[3])
+			a.send(pkA[4])
+			time.Sleep(150 * time.Millisecond)
+			a.close()
+		}
+		var items []item
+		for _, p := range pkA {
+			items = append(items, item{data: p, ans: [4]bool{true, true, true, true}})
+		}
+		srv.takeLog(idB)
+		obs := tunnelObservation(srv, idA, resA, ba, nil)
+		env.count("c07.identity-kept")
+		env.emit("tunnel", "10101", "ws", hx([]byte("identA")), hx([]byte(ba.addr)), itemsString(items), obs)
+		ba.close()
+		bb.close()
 	}
 	// websocket tunnels do not pair up: a second websocket request that carries the connection id of a
 	// websocket tunnel that is still open is a tunnel of its own (the identifier matters for the legacy
